@@ -47,6 +47,9 @@ LAYOUTS = {
     "across": [(F(0), 0, None), (F(7), 1, F(5, 2)), (F(13), 2, None)],
     "chord": [(F(2), 0, None), (F(2), -1, None), (F(2), 1, None), (F(17, 4), 2, None)],
     "allcols": "all",
+    # odd snaps sharing a measure (7ths with a triplet; 5ths with 9ths): every row index a writer computes for such a mix
+    "sevenths+triplet": [(F(17, 7), 0, None), (F(7, 3), 1, None), (F(1), 2, None), (F(3, 7), -1, None)],
+    "fifths+ninths": [(F(7, 5), 0, None), (F(14, 5), 1, None), (F(23, 9), 2, None), (F(4, 9), -1, None)],
     # only the two lowest columns in use: the key count must come from what the source declares, not from the columns in use
     "lowcols": [(F(1), 0, None), (F(2), 1, F(1, 2))],
 }
@@ -437,7 +440,9 @@ def judge_target(ctx, tg, t, ch, den, g, shift, site, case):
         # informational: converters infer the key count from the highest column used (the property speaks of objects and columns)
         ctx.extra["target_key_count_equal" if tkeys == ch["keys"] else "target_key_count_differs"] += 1
     slow = min(b for _, b in den["tempo"])
-    tol = 1.0 + (60000.0 / slow / 192.0 if "sm" in (g, tg) or "bms" in (g, tg) else 0.0)
+    # resolution of the coarser format: 1 ms (osu, Quaver, O2Jam times), 1/192 beat (BMS as written by the library), and for
+    # StepMania 1/96 beat - the writer lays positions that fit no supported measure subdivision on a 96-per-beat grid (as in C03)
+    tol = 1.0 + (60000.0 / slow / 96.0 if "sm" in (g, tg) else 60000.0 / slow / 192.0 if "bms" in (g, tg) else 0.0)
     base_s = den["tempo"][0][0] if tg == "bms" else 0.0
     exp = sorted((tt - base_s, c + shift, l) for tt, c, l in den["notes"])
     got = sorted((tt, c, l) for tt, c, l in notes)
